@@ -56,7 +56,7 @@ class RecordWorld(World):
         rc = stream(seed, "config")
         ro = stream(seed, "ops")
         dt = rc.choice(DTS)
-        ntarget = rc.choice([1, 1, 2, 2, 3, 3, 4, 5, 8])
+        ntarget = rc.choice([1, 1, 2, 2, 3, 3, 4, 5, 8, 8, 16, 40, 150] if prop == "C02" else [1, 1, 2, 2, 3, 3, 4, 5, 8, 16, 40])
         inclusive = rc.random() < 0.4
         # duration giving (about) the target size; the model recomputes N by the documented formula
         if inclusive:
@@ -201,9 +201,18 @@ class RecordWorld(World):
         limit = dt * (n - 1)
         numel = int(np.prod(shape))
 
+        just = [False]
+
         def one_time(allow_band=True):
             c = ro.random()
             k = ro.randint(0, n - 1)
+            if c > 0.9 and n > 1:
+                # just outside the tolerance of a grid point (needs float64 times to be decidable)
+                k = ro.choice([n - 2, n - 2, ro.randint(0, n - 2)])
+                d = tol * ro.choice([2, 3, 10]) + dt * ro.choice([0.0, 1e-7, 1e-5, 1e-4])
+                if 0 < d < 0.3 * dt:
+                    just[0] = True
+                    return (k + 1) * dt - d if ro.random() < 0.5 or k + 1 > n - 1 else k * dt + d, "just"
             if c < 0.35:
                 return float(np.float32(k * dt)) if tdtype == "float32" else k * dt, "grid"
             if c < 0.45 and tol >= 1e-3 and allow_band:
@@ -245,6 +254,8 @@ class RecordWorld(World):
                 arr = np.array(times, dtype=np.float64)
                 arr.flat[ro.randrange(arr.size)] = bad
                 times = arr.tolist()
+        if just[0]:
+            tdtype = "float64"
         op = {"op": which, "time": times, "form": form, "tol": tol, "tdtype": tdtype,
               "offset": ro.choice([1, 1, 0, 2, ro.randint(0, 2 * n)]) if which == "select" else ro.choice([0, 0, 1, ro.randint(0, 2 * n)]),
               "mode": ro.choice(["spy", "spy", "pair"]), "pair": ro.choice(PAIRS), "twin": ro.random() < 0.4,
@@ -990,13 +1001,15 @@ class _RecordRun:
         the rounding of a float32 time tensor (half an ulp below 16 is 4.8e-7); exact hits are judged."""
         dt, n = self.dt, self.m.n
         limit = dt * (n - 1)
-        margin = max(4.9e-7 if tdtype == "float32" else 1e-9, 0.05 * tol)
+        base = max(4.9e-7 if tdtype == "float32" else 1e-9, 0.05 * tol)
         for t in tvals:
+            # a float32 time carries a rounding error of up to one ulp of its magnitude
+            margin = max(base, abs(t) * 1.3e-7) if tdtype == "float32" else base
             s = t / dt
             d = abs(dt * round(s) - t)
             if d != 0.0 and abs(d - tol) < margin:
                 return True
-            if d > tol and d < 5e-6:
+            if tdtype == "float32" and d > tol and d < 5e-6:
                 return True
             for edge in (-tol, limit + tol):
                 if t != edge and abs(t - edge) < margin:
@@ -1225,6 +1238,12 @@ class _RecordRun:
         tol, offset, inplace = op["tol"], op["offset"], op["inplace"]
         f = dict(f, pair=name)
         # nearest: skip the exact half step; linear: needs sample_at away from 0 / dt (guaranteed by off-grid margin)
+        for c in cls:
+            # the shipped linear / exponential pairs are ill-conditioned when the sample sits almost on a grid
+            # point (division by the elapsed time): round trips are judged only clearly between grid points
+            if c[0] == "off" and not (0.05 <= c[3] / self.dt <= 0.95):
+                ctx.undecided += 1
+                return
         if name == "nearest":
             for c in cls:
                 if c[0] == "off" and abs(c[3] / self.dt - 0.5) < 0.02:
